@@ -436,26 +436,28 @@ def check_reserve_post(ctx, db, config):
         capnow = I.read(r.ret_state.copy(), cap_lv)
         # variant facts about merged values (`match res { Ok(()) => .., Err(..) => panic }`) rule out the memory alternatives that
         # come from the other predecessors of the same merge point
-        def phi_path(t, target, path=()):
+        def phi_paths(t, target, path=(), out=None):
+            """every route (merge point, predecessor)* by which `target` is an alternative of the merged value t"""
+            out = [] if out is None else out
             if t == target:
-                return path
+                out.append(path)
             if isinstance(t, tuple) and t and t[0] == 'phi':
                 for pr, x in t[2]:
-                    got = phi_path(x, target, path + ((t[1][:2], pr),))
-                    if got is not None:
-                        return got
-            return None
+                    phi_paths(x, target, path + ((t[1][:2], pr),), out)
+            return out
 
         def contradicted(capv, facts):
-            path = phi_path(capnow, capv) or ()
-            for f in facts:
-                if f[0] == 'is' and isinstance(f[1], tuple) and f[1] and f[1][0] == 'phi':
-                    for node, pr in path:
-                        if f[1][1][:2] == node:
-                            for p2, x in f[1][2]:
-                                vs2 = I.variants_in(x) - {''}
-                                if p2 == pr and vs2 and f[2] not in vs2:
-                                    return True
+            # the facts name the merge points the alternative went through (variant tests on values merged there); a route to this
+            # value of cap through one of those merge points from a predecessor whose value fails the test is not this alternative
+            for path in phi_paths(capnow, capv):
+                for f in facts:
+                    if f[0] == 'is' and isinstance(f[1], tuple) and f[1] and f[1][0] == 'phi':
+                        for node, pr in path:
+                            if f[1][1][:2] == node:
+                                for p2, x in f[1][2]:
+                                    vs2 = I.variants_in(x) - {''}
+                                    if p2 == pr and vs2 and f[2] not in vs2:
+                                        return True
             return False
         for (rv, capv), facts in arena.joint_alternatives(I, [r.ret, capnow], set(r.ret_state.facts)):
             if contradicted(capv, facts):
